@@ -1,5 +1,5 @@
 From Coq Require Import Extraction ExtrOcamlBasic.
 From OV Require Import Common.Base C03.Model C03.IpoeModel.
 Extraction Language OCaml.
-Extraction "C03_model.ml" N.add Z.add init step run mon_run mon0 service fstate_num holds_nothing radius_decide aaa_allowed
+Extraction "C03_model.ml" N.add Z.add init init3 holds6 leaks find_idx pend_matches step run mon_run mon0 service fstate_num holds_nothing radius_decide aaa_allowed
   iinit istep irun imon0 imon_in imon_outs imon_run iservice holds_nothing_i held.
